@@ -879,7 +879,7 @@ func init() {
 			NotDecided:  []string{"that code after Next() runs in reverse order (consequence of Go's call stack plus C04-CURSOR; argued)", "response bodies", "behaviour of user handlers that replace the chain through the exported SetHandlers mid-request"},
 			Assumptions: []string{"handlers do not call SetHandlers/Reset on their own context mid-chain", "go/ssa lowering of append / composite literals / copy"},
 		},
-		Rules: []ruleFn{{"C04-SEQ", ruleC04Seq}, {"C04-CURSOR", ruleC04Cursor}, {"C04-VERBS", ruleC04Verbs}, {"C12-USE", ruleC12CopyUse}},
+		Rules: []ruleFn{{"C04-SEQ", ruleC04Seq}, {"C04-CURSOR", ruleC04Cursor}, {"C04-VERBS", ruleC04Verbs}, {"C12-USE", ruleC12CopyUse}, {"C06-DISPATCH", ruleC06Dispatch}},
 	})
 	register(&property{
 		Meta: propertyMeta{
